@@ -562,11 +562,11 @@ From PV Require Import Model.AstWriter Proofs.ParserComplete2 Proofs.ParserCompl
 Lemma fully_parsed_of_derivation ls q g :
   from_lines ls = Ok q ->
   derives (map token_of_tok (l_toks q)) g = true -> line_scoped (map token_of_tok (l_toks q)) g = true ->
-  in_frag g = true -> tokdata_ok (map token_of_tok (l_toks q)) g = true ->
+  excl g = true ->
   fully_parsed q = true.
 Proof.
-  intros Hq Hd Hl Hf Ht. destruct (from_lines_parse _ _ Hq) as (e & Hp).
-  destruct (parse_complete _ g Hd Hl Hf Ht) as (root & e' & Hp' & Hc & _). rewrite Hp in Hp'. injection Hp' as <- <-.
+  intros Hq Hd Hl Hf. destruct (from_lines_parse _ _ Hq) as (e & Hp).
+  destruct (parse_complete _ g Hd Hl Hf) as (root & e' & Hp' & Hc & _). rewrite Hp in Hp'. injection Hp' as <- <-.
   pose proof (lua_parse_spec (map token_of_tok (l_toks q))) as Sp. rewrite Hp in Sp. destruct Sp as (_ & _ & _ & (fs & Eroot)).
   unfold fully_parsed. rewrite Eroot. exact Hc.
 Qed.
